@@ -80,7 +80,18 @@ where
     //@         None => no_succ(old(self).cmp(), old(self).view(), *t),
     //@     },
     {
-        self.tree.next(t).map(|kv /*@ : (&T, &()) @*/| /*@ -> (r: &T) ensures r == kv.0, { @*/ kv.0 /*@ } @*/)
+        //@ let ghost c = self.tree.cmp();
+        //@ let ghost s = self.tree.view();
+        /*@ let r = @*/ self.tree.next(t).map(|kv /*@ : (&T, &()) @*/| /*@ -> (r: &T) ensures r == kv.0, { @*/ kv.0 /*@ } @*/) /*@ ;
+        proof {
+            assert(c == old(self).cmp() && s == old(self).view());
+            if let Some(k) = r {
+                let i = choose|i: int| #[trigger] succ_at(c, s, *t, i) && s[i].0 == *k;
+                assert(succ_at(c, s, *t, i) && s[i].0 == *k);
+                assert(succ_at(old(self).cmp(), old(self).view(), *t, i) && old(self).view()[i].0 == *k);
+            }
+        }
+        r @*/
     }
 
     pub fn prev(&mut self, t: &T) -> /*@ (res: @*/ Option<&T> /*@ ) @*/
@@ -93,7 +104,18 @@ where
     //@         None => no_pred(old(self).cmp(), old(self).view(), *t),
     //@     },
     {
-        self.tree.prev(t).map(|kv /*@ : (&T, &()) @*/| /*@ -> (r: &T) ensures r == kv.0, { @*/ kv.0 /*@ } @*/)
+        //@ let ghost c = self.tree.cmp();
+        //@ let ghost s = self.tree.view();
+        /*@ let r = @*/ self.tree.prev(t).map(|kv /*@ : (&T, &()) @*/| /*@ -> (r: &T) ensures r == kv.0, { @*/ kv.0 /*@ } @*/) /*@ ;
+        proof {
+            assert(c == old(self).cmp() && s == old(self).view());
+            if let Some(k) = r {
+                let i = choose|i: int| #[trigger] pred_at(c, s, *t, i) && s[i].0 == *k;
+                assert(pred_at(c, s, *t, i) && s[i].0 == *k);
+                assert(pred_at(old(self).cmp(), old(self).view(), *t, i) && old(self).view()[i].0 == *k);
+            }
+        }
+        r @*/
     }
 
     pub fn insert(&mut self, t: T) -> /*@ (res: @*/ bool /*@ ) @*/
